@@ -97,6 +97,7 @@ type Engine struct {
 	unknownLabels map[string]int
 	abstractIDs   bool
 	lightDec      bool
+	abstractHops  bool
 	reachPending map[string]string
 	lastPanic  *goPanic
 	collisionFree bool
